@@ -6,11 +6,13 @@ HARNESSES = {"atom": cc.ATOM_HARNESS, "composite": cp.COMPOSITE_HARNESS}
 if "C04" == "C08":
     HARNESSES["required"] = cp.REQUIRED_HARNESS
 HARNESSES["wrongtype"] = cc.WRONGTYPE_HARNESS
+HARNESSES["constant"] = cp.CONSTANT_HARNESS
 STUBS = cc.STUBS
 
 
 def configs(tier, seed):
-    return cc.configs_for("C04", tier, seed) + cp.configs_for("C04", tier, seed) + cc.wrongtype_configs()
+    return cc.configs_for("C04", tier, seed) + cp.configs_for("C04", tier, seed) + cc.wrongtype_configs() + \
+        [dict(c, prop="C04") for c in cp.configs_for("C08", tier, seed) if c["harness"] == "constant"]
 
 
 BOUNDS = {"atoms": "bit length in {1,2,7,8,9,12,15,16,17,24,31,32,33,63,64} x bit position 0..7 x "
